@@ -228,10 +228,15 @@ func c14Recover(d *vCtx) error {
 			endings := []string{"success", "fault", "stop", "success"}
 			rng.Shuffle(3, func(i, j int) { endings[i], endings[j] = endings[j], endings[i] })
 			tr.Emit(map[string]any{"e": "chain", "seq": sq, "hops": hops}, nil)
-			for ti, how := range endings {
+			for ti := 0; ti < len(endings); ti++ {
+				how := endings[ti]
 				id := sq*10 + ti
+				if strings.HasPrefix(how, "again:") { // second attempt of a success-planned transfer (see below)
+					how = "success"
+					id = sq*10 + 5 + ti%5
+				}
 				c := &e2eCase{ID: id, Seed: d.seed*977 + int64(id), NamesFromTops: true, WatchdogMs: 40000}
-				c.Opts = e2eOpts{Upload: (sq+ti)%2 == 0, Binary: rng.Intn(2) == 0, Protocol: 4, Timeout: 2, Bufsize: 4096,
+				c.Opts = e2eOpts{Upload: (sq+ti)%2 == 0, Binary: rng.Intn(2) == 0, Protocol: 4, Timeout: 5, Bufsize: 4096,
 					Overwrite: rng.Intn(2) == 0, Directory: rng.Intn(3) == 0}
 				c.Nodes = []e2eNode{{Rel: e2eName(0, 0), Size: int64(2000 + rng.Intn(20000)), Kind: rng.Intn(3)}}
 				if c.Opts.Directory {
@@ -262,7 +267,7 @@ func c14Recover(d *vCtx) error {
 				}
 				// give the relays a moment to see the end marker, then probe
 				st := chain.statuses()
-				for deadline := time.Now().Add(3 * time.Second); time.Now().Before(deadline); st = chain.statuses() {
+				for deadline := time.Now().Add(20 * time.Second); time.Now().Before(deadline); st = chain.statuses() {
 					all0 := true
 					for _, x := range st {
 						if x != 0 {
@@ -274,11 +279,24 @@ func c14Recover(d *vCtx) error {
 					}
 					time.Sleep(2 * time.Millisecond)
 				}
+				// nothing the two ends wrote was lost, duplicated or reordered inside the chain
+				consUp, consDown, consDetail := chain.conserved(20 * time.Second)
 				up, down := chain.probe(id)
+				// a success-planned transfer that ended with the code's own read time-out although the chain
+				// delivered every line is starvation on a loaded machine, not a result of the relays: it is
+				// recorded as such and attempted once more through the same chain
+				if how == "success" && !(res.ClientOK && res.ServerOK) && consUp && consDown && len(endings) < 8 &&
+					(strings.Contains(res.ClientErr+res.ServerErr, "timeout") || strings.Contains(res.ClientErr+res.ServerErr, "Timeout")) {
+					how = "load-timeout"
+					endings = append(endings[:ti+1], append([]string{"again:success"}, endings[ti+1:]...)...)
+					d.add("load_timeouts_retried", 1)
+				}
 				tr.Emit(map[string]any{"e": "xfer", "run": id, "seq": sq, "how": how, "hops": hops, "trigger": res.TriggerSeen,
+					"consUp": consUp, "consDown": consDown, "consNote": consDetail,
 					"actIn": flat(res.ActSent), "actOut": flat(res.ActAtServer), "cfgIn": flat(res.CfgSent), "cfgOut": flat(res.CfgAtClient),
 					"statuses": st, "probeUp": up, "probeDown": down,
 					"marked": strings.Contains(res.TriggerShown, "#R")}, nil)
+				detail["conservation"] = consDetail
 				details = append(details, map[string]any{"case": c, "how": how, "hops": hops, "detail": detail})
 				os.RemoveAll(e2eWorkDir(base, id))
 				d.add("runs", 1)
